@@ -11,7 +11,9 @@
 (* A BCall event is checked when the operation is in the table, the        *)
 (* operands are values of the declared types inside the domain, and the    *)
 (* specification gives a value there (Specified): then the logged result   *)
-(* must be Def(op, args), and a boolean result must be canonical (0/1).    *)
+(* must be Def(op, args), and a boolean result must be canonical (0/1); an *)
+(* application to a non-canonical boolean operand is skipped (the event    *)
+(* that produced that operand is the one rejected).                        *)
 (* Every other BCall event is accepted and counted as skipped.  Observe    *)
 (* events go through Obs.tla: two observations of one input must agree.    *)
 (* A failing event does not stop the validation: it is printed as          *)
@@ -44,7 +46,7 @@ Applicable(e) ==
   /\ e.op \in DefinedOps
   /\ LET s == Sig(e.op) IN
        /\ Len(e.args) = Len(s.args) /\ Len(e.res) = Len(s.res)
-       /\ \A i \in 1..Len(s.args) : WellFormed(e.args[i], s.args[i])
+       /\ \A i \in 1..Len(s.args) : WellFormed(e.args[i], s.args[i]) /\ Canonical(e.args[i], s.args[i])
        /\ \A i \in 1..Len(s.res) : WellFormed(e.res[i], s.res[i])
        /\ LET a == [i \in 1..Len(s.args) |-> Dec(e.args[i], s.args[i])]
           IN InDomain(e.op, a) /\ Specified(e.op, a)
